@@ -60,6 +60,7 @@ class Monitor(object):
         self.cfg = full_cfg
         self.trace = []
         self.stopped = False
+        self.last_ka_sent = None
         self.conn_before_stop = set()
         self.streams = {}          # connector id -> bytes delivered
         self.closed_by_us = set()
@@ -266,6 +267,31 @@ class Monitor(object):
                         or po['my_as_field'] != want_field:
                     self.fail('C05', 'our OPEN does not carry version 4 / configured AS (My-AS field %d expected) / configured '
                                      'hold time: %r' % (want_field, po), 'open-fields')
+                # ... and only capabilities from the configured set (read off the configuration independently of Open.construct)
+                caps_cfg = self.cfg.get('caps') or {}
+                allowed = set()
+                if caps_cfg.get('afi_safi') is not None:
+                    allowed.add(1)
+                if caps_cfg.get('route_refresh'):
+                    allowed.add(2)
+                if caps_cfg.get('cisco_route_refresh'):
+                    allowed.add(128)
+                if caps_cfg.get('enhanced_route_refresh'):
+                    allowed.add(70)
+                if caps_cfg.get('four_bytes_as') or self.cfg['local_as'] > 65535:
+                    allowed.add(65)
+                if caps_cfg.get('add_path'):
+                    allowed.add(69)
+                if caps_cfg.get('ext_nexthop') is not None:
+                    allowed.add(5)
+                if caps_cfg.get('graceful_restart'):
+                    allowed.add(64)
+                if caps_cfg.get('cisco_multi_session'):
+                    allowed.add(131)
+                extra = sorted(set(c for c, _ in po['caps']) - allowed)
+                if extra:
+                    self.fail('C05', 'our OPEN advertises capabilities %r that the configuration does not switch on (%r)' % (extra, caps_cfg),
+                              'open-unconfigured-capability')
                 if self.first_open is None:
                     self.first_open = po
                 elif po != self.first_open:
@@ -276,6 +302,11 @@ class Monitor(object):
                 self.t_connect = obs['now']
                 self.H = None
         # ---------------- C03: timers keep the negotiated contract
+        for o in outs:
+            if o[0] == 'write' and bytes.fromhex(o[2])[18] == 4 and o[1] == obs['proto']:
+                self.last_ka_sent = obs['now']
+            elif o[0] == 'write' and bytes.fromhex(o[2])[18] == 1:
+                self.last_ka_sent = None
         if k == 'chunk' and ev['c'] == prev['proto']:
             for t, ln, body in frames_of(bytes.fromhex(ev['hex'])):
                 pass
@@ -300,6 +331,10 @@ class Monitor(object):
                 ka = tm.get('keepalive')
                 if not ka or min(ka) > obs['now'] + self.H:
                     self.fail('C03', 'no KEEPALIVE is scheduled within H/3 (H=%d): timers %r at %d' % (self.H, tm, obs['now']), 'keepalive-schedule')
+                elif self.last_ka_sent is not None and min(ka) > self.last_ka_sent + self.H:
+                    # "a KEEPALIVE at least every H/3 seconds": the next one is due no later than H/3 after the last one written
+                    self.fail('C03', 'the next KEEPALIVE is scheduled at %d, more than H/3 (H=%d) after the last one the agent wrote (at %d)'
+                              % (min(ka), self.H, self.last_ka_sent), 'keepalive-gap')
                 hd = tm.get('hold')
                 if not hd or hd != [self.last_arrival + 3 * self.H]:
                     self.fail('C03', 'hold deadline %r is not last arrival %r + H (H=%d)' % (hd, self.last_arrival, self.H), 'hold-deadline')
@@ -323,6 +358,13 @@ class Monitor(object):
             ws = [o for o in outs if o[0] == 'write']
             if len(ws) != 1 or bytes.fromhex(ws[0][2])[18] != 4:
                 self.fail('C03', 'keepalive timer expiry did not send a KEEPALIVE', 'keepalive-expiry')
+        if k == 'fire' and ev['t'] in ('hold', 'keepalive') and prev['state'] in ('IDLE', 'CONNECT', 'ACTIVE'):
+            # RFC 4271 8.2.2: the HoldTimer and the KeepaliveTimer run in OpenSent / OpenConfirm / Established only; one that
+            # is left over from a session that has ended must not act on the state machine of the next attempt
+            if obs['state'] != prev['state'] or obs['conns'] != prev['conns'] or any(o[0] in ('write', 'lose', 'connect') for o in outs):
+                self.fail('C01', 'a %s timer left over from an ended session expired in state %s and moved the state machine to %s '
+                                 '(connections %r -> %r)' % (ev['t'], prev['state'], obs['state'], prev['conns'], obs['conns']),
+                          'stale-timer-acts')
         if st == 'IDLE':
             self.H = None
         self.check_rfc(ev, prev, obs, sim)
